@@ -78,6 +78,12 @@ def check(tier, seed):
         for tag, y in fam.adversarial_hint_sections(p):
             sg = bytes(glen - len(y)) + y
             add(f"verify {s} pure bytes:{pk.hex()} {hx(msg)} - {sg.hex()}", 'verify: crafted hint section', 'last 0' in tag and 'indices 0,1,2' in tag)
+        # --- every s1 / s2 field the same code (all codes), every t0 field the same code: deserialise, serialise, derive, sign
+        for tag, kb, ok in fam.constant_field_keys(s, sk):
+            add(f"sk_rt {s} bytes:{kb.hex()}", 'constant-field key: deserialise (+ serialise if accepted)', False)
+            add(f"derive {s} bytes:{kb.hex()}", 'constant-field key: derive', False)
+            if ok:
+                add(f"sign {s} pure bytes:{kb.hex()} {hx(msg)} - ok:{'00' * 32}", 'constant-field key: sign', False)
         # --- a whole s1/s2 polynomial out of range, the all-FF key
         for tag, kb in fam.whole_poly_bad_keys(s, sk):
             add(f"sk_rt {s} bytes:{kb.hex()}", 'whole polynomial out of range: deserialise (+ serialise if accepted)', False)
